@@ -11,7 +11,7 @@ KINDS = [('unit', []), ('tuple', ['u8']), ('tuple', ['String', 'i32']), ('tuple'
 NAMINGS = [((), False), ((), True), (('M',), False), (('S', 'L'), False), (('L', 'S'), False),
            (('S', 'M', 'L'), False), (('S', 'L', 'M'), False), (('M', 'S', 'L'), False), (('M', 'L', 'S'), False),
            (('L', 'S', 'M'), False), (('L', 'M', 'S'), False), (('M',), True), (('L', 'S'), True),
-           (('U', 'A'), False), (('A', 'U'), False), (('B',), False), (('S', 'B'), False)]
+           (('U', 'A'), False), (('A', 'U'), False), (('B',), False), (('S', 'B'), False), ((), 'brace'), (('S',), 'brace')]
 # out-of-quantifier probes (ties in length): last one wins in the implementation and in the model
 TIE_NAMINGS = [(('M', 'N'), False), (('N', 'M'), False), (('M', 'N', 'S'), False)]
 
@@ -41,7 +41,9 @@ def make_variant(k, stem_i, kind, naming, uniq=''):
         v.fdw = [None] * len(ftypes)
     sers, has_ts = naming
     v.ser = [lit(c, ident, k) for c in sers]
-    if has_ts:
+    if has_ts == 'brace':
+        v.ts = 'begin { %s' % ident      # an opening brace that is never closed: no placeholder, a fixed name for every derive
+    elif has_ts:
         v.ts = 'shown as %s' % ident
     return v
 
@@ -66,6 +68,8 @@ def build_enums(rng, tier, pid, derives, feats, passes=None, styles=None, prefix
             if cis_mode == 'alt' and 'IntoStaticStr' in derives:
                 e.cis = n % 2 == 0
             for k, (kind, naming) in enumerate(chunk):
+                if naming[1] == 'brace' and '{' in (e.prefix or ''):
+                    naming = (naming[0], True)   # `{ ` + `begin { x` would be two opening braces in a row: rejected by Display
                 v = make_variant(k, n * 5 + k, kind, naming)
                 if disabled_some and (n + k) % 9 == 4:
                     v.dis = True
